@@ -1295,3 +1295,142 @@ Example over_limit_len_is_rejected :
   well_formed ex_invalid_len_over_limit = true /\ is_job_invalid ex_invalid_len_over_limit = Some IMB_ERR_JOB_CIPH_LEN /\
   violations ex_invalid_len_over_limit = [IMB_ERR_JOB_CIPH_LEN].
 Proof. vm_compute. repeat split; reflexivity. Qed.
+
+(* ------------------------------------------------------------------------------------------ *)
+(* the checked asynchronous burst submission                                                   *)
+(* ------------------------------------------------------------------------------------------ *)
+(* the generated index computation (shifts, masks, 32/64-bit wrap-around) is the documented
+   "cipher_mode x 4 + key-size index + 128 x encrypt bit" *)
+Lemma calc_cipher_tab_index_spec j :
+  jv_cipher_mode j < 4294967296 -> jv_cipher_direction j < 4294967296 -> jv_key_len_in_bytes j < 18446744073709551616 ->
+  calc_cipher_tab_index j = suite_cipher_index j.
+Proof.
+  intros Hcm Hd Hk. unfold calc_cipher_tab_index, suite_cipher_index, key_size_index.
+  unfold shl32, add64, sub64, w32, w64, mask32, mask64, IMB_DIR_ENCRYPT.
+  rewrite !N.shiftl_mul_pow2, !N.shiftr_div_pow2, land_1, land_3, !land_m32, !land_m64.
+  change (2 ^ 2) with 4. change (2 ^ 3) with 8. change (2 ^ 7) with 128.
+  rewrite (N.mod_small 1) by lia.
+  set (ki := ((jv_key_len_in_bytes j + 18446744073709551616 - 1) mod 18446744073709551616 / 8) mod 4).
+  assert (Hki : ki < 4) by (apply N.mod_lt; discriminate).
+  set (d := jv_cipher_direction j mod 2). assert (Hdd : d < 2) by (apply N.mod_lt; discriminate).
+  clearbody ki d. lia.
+Qed.
+
+Lemma wf_entry_widths e :
+  well_formed (be_job e) = true ->
+  jv_cipher_mode (be_job e) < 4294967296 /\ jv_cipher_direction (be_job e) < 4294967296 /\
+  jv_key_len_in_bytes (be_job e) < 18446744073709551616.
+Proof.
+  unfold well_formed, widths_ok, u64_ok, u32_ok. intros H.
+  apply andb_true_iff in H. destruct H as [H _].
+  repeat match type of H with (_ && _ = true) => apply andb_true_iff in H; destruct H as [H ?] end.
+  repeat match goal with H : (_ <? _) = true |- _ => apply N.ltb_lt in H end.
+  repeat split; assumption.
+Qed.
+
+Definition entries_wf (es : list burst_entry) : bool :=
+  forallb (fun e => well_formed (be_job e) && u32_ok (be_suite0 e) && u32_ok (be_suite1 e)) es.
+
+(* one pass of the generated loop over the tail [es] of the array starting at index i *)
+Lemma burst_loop_accept_iff : forall es i n,
+  N.of_nat (length es) + i = n -> n < 4294967296 -> entries_wf es = true ->
+  (submit_burst_check_loop es i n = BurstAccept <-> forallb burst_entry_ok es = true).
+Proof.
+  induction es as [|e es IH]; intros i n Hlen Hn Hwf; cbn [length] in Hlen; cbn [submit_burst_check_loop forallb].
+  - replace (i <? n) with false by (symmetry; apply N.ltb_ge; lia). tauto.
+  - replace (i <? n) with true by (symmetry; apply N.ltb_lt; lia).
+    cbn [entries_wf forallb] in Hwf. apply andb_true_iff in Hwf. destruct Hwf as [He Hwf].
+    apply andb_true_iff in He. destruct He as [He _]. apply andb_true_iff in He. destruct He as [He _].
+    destruct (wf_entry_widths e He) as (W1 & W2 & W3).
+    unfold burst_entry_ok, job_check_passes, suite_hash_index.
+    cbv zeta. unfold set_cipher_suite_id_0, set_cipher_suite_id_1. cbv zeta.
+    rewrite (calc_cipher_tab_index_spec _ W1 W2 W3).
+    assert (Hi : add32 i 1 = i + 1) by (unfold add32, w32, mask32; rewrite land_m32; apply N.mod_small; lia).
+    rewrite Hi.
+    specialize (IH (i + 1) n ltac:(lia) Hn Hwf).
+    destruct (be_null e); [ cbn; split; [discriminate | intros H; discriminate] |].
+    destruct (be_in_order e); [| cbn; split; [discriminate | intros H; discriminate]].
+    destruct (is_job_invalid (be_job e)); [ cbn; split; [discriminate | intros H; discriminate] |].
+    destruct (be_suite0 e =? suite_cipher_index (be_job e)); destruct (be_suite1 e =? jv_hash_alg (be_job e));
+      cbn [negb orb andb]; try (split; [discriminate | intros H; discriminate]).
+    exact IH.
+Qed.
+
+Theorem burst_accept_iff : forall b,
+  burst_well_formed b = true -> (submit_burst_check b = BurstAccept <-> burst_ok b = true).
+Proof.
+  intros b Hwf. unfold burst_well_formed in Hwf.
+  apply andb_true_iff in Hwf. destruct Hwf as [Hwf He].
+  apply andb_true_iff in Hwf. destruct Hwf as [Hwf Hq].
+  apply andb_true_iff in Hwf. destruct Hwf as [Hl Hn].
+  apply N.eqb_eq in Hl. unfold u32_ok in Hn, Hq. apply N.ltb_lt in Hn.
+  unfold submit_burst_check, burst_ok, IMB_MAX_BURST_SIZE. cbv zeta.
+  destruct (bv_jobs_null b); [ cbn; split; [discriminate | intros H; discriminate] |].
+  destruct (128 <? bv_n_jobs b) eqn:E1.
+  { replace (bv_n_jobs b <=? 128) with false by lia. cbn. split; [discriminate | intros H; discriminate]. }
+  replace (bv_n_jobs b <=? 128) with true by lia.
+  destruct (bv_queue_space b <? bv_n_jobs b) eqn:E2.
+  { replace (bv_n_jobs b <=? bv_queue_space b) with false by lia. cbn. split; [discriminate | intros H; discriminate]. }
+  replace (bv_n_jobs b <=? bv_queue_space b) with true by lia. cbn [negb andb].
+  apply burst_loop_accept_iff; [lia | exact Hn | exact He].
+Qed.
+
+(* a rejection names something that is wrong with the burst *)
+Lemma burst_loop_reject_errno : forall es i n e k,
+  N.of_nat (length es) + i = n -> n < 4294967296 -> entries_wf es = true ->
+  submit_burst_check_loop es i n = BurstReject e k -> In e (flat_map burst_entry_violations es).
+Proof.
+  induction es as [|x es IH]; intros i n e k Hlen Hn Hwf; cbn [length] in Hlen; cbn [submit_burst_check_loop flat_map].
+  - replace (i <? n) with false by (symmetry; apply N.ltb_ge; lia). discriminate.
+  - replace (i <? n) with true by (symmetry; apply N.ltb_lt; lia).
+    cbn [entries_wf forallb] in Hwf. apply andb_true_iff in Hwf. destruct Hwf as [He Hwf].
+    apply andb_true_iff in He. destruct He as [He _]. apply andb_true_iff in He. destruct He as [He _].
+    destruct (wf_entry_widths x He) as (W1 & W2 & W3).
+    cbv zeta. unfold set_cipher_suite_id_0, set_cipher_suite_id_1. cbv zeta.
+    rewrite (calc_cipher_tab_index_spec _ W1 W2 W3).
+    assert (Hi : add32 i 1 = i + 1) by (unfold add32, w32, mask32; rewrite land_m32; apply N.mod_small; lia).
+    rewrite Hi. intros H. apply in_or_app. unfold burst_entry_violations, suite_hash_index.
+    destruct (be_null x). { injection H as <- _. left. cbn. left. reflexivity. }
+    destruct (be_in_order x); [| injection H as <- _; left; cbn; left; reflexivity ].
+    destruct (is_job_invalid (be_job x)) as [err|]. { injection H as <- _. left. cbn. left. reflexivity. }
+    destruct (be_suite0 x =? suite_cipher_index (be_job x)); destruct (be_suite1 x =? jv_hash_alg (be_job x));
+      cbn [negb orb andb] in *; try (injection H as <- _; left; cbn; left; reflexivity).
+    right. exact (IH (i + 1) n e k ltac:(lia) Hn Hwf H).
+Qed.
+
+Theorem burst_reject_errno_names_a_violation : forall b e k,
+  burst_well_formed b = true -> submit_burst_check b = BurstReject e k -> In e (burst_violations b).
+Proof.
+  intros b e k Hwf. unfold burst_well_formed in Hwf.
+  apply andb_true_iff in Hwf. destruct Hwf as [Hwf He].
+  apply andb_true_iff in Hwf. destruct Hwf as [Hwf Hq].
+  apply andb_true_iff in Hwf. destruct Hwf as [Hl Hn].
+  apply N.eqb_eq in Hl. unfold u32_ok in Hn. apply N.ltb_lt in Hn.
+  unfold submit_burst_check, burst_violations, IMB_MAX_BURST_SIZE. cbv zeta.
+  destruct (bv_jobs_null b). { intros H. injection H as <- _. cbn. left. reflexivity. }
+  cbn [app].
+  destruct (128 <? bv_n_jobs b) eqn:E1.
+  { replace (bv_n_jobs b <=? 128) with false by lia. intros H. injection H as <- _. cbn. left. reflexivity. }
+  replace (bv_n_jobs b <=? 128) with true by lia. cbn [app].
+  destruct (bv_queue_space b <? bv_n_jobs b) eqn:E2.
+  { replace (bv_n_jobs b <=? bv_queue_space b) with false by lia. intros H. injection H as <- _. cbn. left. reflexivity. }
+  replace (bv_n_jobs b <=? bv_queue_space b) with true by lia. cbn [app].
+  intros H. apply (burst_loop_reject_errno (bv_entries b) 0 (bv_n_jobs b) e k); [lia | exact Hn | exact He | exact H].
+Qed.
+
+(* ---- burst examples: a two-job burst whose descriptors carry the right suite id is accepted; with
+   ONE stale suite word (either one) the burst is rejected with IMB_ERR_BURST_SUITE_ID at that job ---- *)
+Definition ex_entry (s0 s1 : N) : burst_entry := mk_burst_entry false true ex_valid_cbc_hmac_sha1 s0 s1.
+Definition ex_burst (s0 s1 : N) : burst_view := mk_burst_view false 2 255 [ex_entry 133 1; ex_entry s0 s1].
+Example burst_right_suite_accepted :
+  burst_well_formed (ex_burst 133 1) = true /\ submit_burst_check (ex_burst 133 1) = BurstAccept /\ burst_ok (ex_burst 133 1) = true.
+Proof. vm_compute. repeat split; reflexivity. Qed.
+Example burst_stale_cipher_word_rejected :   (* 137 = AES-CTR-128 encrypt: a valid index of another suite *)
+  submit_burst_check (ex_burst 137 1) = BurstReject IMB_ERR_BURST_SUITE_ID (Some 1) /\ burst_ok (ex_burst 137 1) = false.
+Proof. vm_compute. split; reflexivity. Qed.
+Example burst_stale_hash_word_rejected :     (* 3 = HMAC-SHA-256 *)
+  submit_burst_check (ex_burst 133 3) = BurstReject IMB_ERR_BURST_SUITE_ID (Some 1) /\ burst_ok (ex_burst 133 3) = false.
+Proof. vm_compute. split; reflexivity. Qed.
+Example burst_both_words_stale_rejected :
+  submit_burst_check (ex_burst 137 3) = BurstReject IMB_ERR_BURST_SUITE_ID (Some 1).
+Proof. vm_compute. reflexivity. Qed.
